@@ -225,6 +225,81 @@ def run_overdue(case: dict) -> Outcome:
     return out
 
 
+# ------------------------------------------------------------------ (d) where bucket expiry is enforced: the Redis bucket broker
+# Nothing in repid reads ArgsBucket/ResultBucket.is_overdue; "now > timestamp + ttl" is made true for stored buckets by the
+# expiry the Redis bucket broker puts on the key.  (The in-memory bucket broker keeps buckets for ever - not judged.)
+
+
+def _store_case():
+    day = 86400 * US
+    return st.fixed_dictionaries({
+        "result": st.booleans(),
+        "ttl_us": st.one_of(st.integers(2 * US, 120 * US), st.sampled_from([day, 2 * day + 5 * US, 30 * day])),
+        # the bucket's timestamp is usually "now", but a bucket may be stored (again) long after it was created
+        "left_us": st.one_of(st.just(None), st.integers(-30 * US, 60 * US)),
+        "eps_us": st.one_of(st.sampled_from([-3 * US, -1_500_000, 1_500_000, 3 * US]), st.integers(-20 * US, 20 * US)),
+        "phase_us": st.integers(0, 999_999),
+        "restore": st.booleans(),
+    })
+
+
+async def _store(loop, case, out: Outcome):
+    import asyncio
+
+    from harness.brokers import Env, reset_globals
+    from repid.data._buckets import ArgsBucket, ResultBucket
+
+    reset_globals()
+    env = Env("redis", loop, 0)
+    conn = env.connection("c0", None, buckets=True)
+    await conn.connect()
+    bb = conn.results_bucket_broker if case["result"] else conn.args_bucket_broker
+    await asyncio.sleep(case["phase_us"] / 1e6)
+    now = vclock.VDateTime.now()
+    ttl = timedelta(microseconds=case["ttl_us"])
+    # time left until the expiry at store time (None: a fresh bucket, expiry = now + ttl)
+    ts = now if case["left_us"] is None else now + timedelta(microseconds=case["left_us"]) - ttl
+    if case["result"]:
+        b = ResultBucket(data="[1]", started_when=1, finished_when=2, success=True, exception=None, timestamp=ts, ttl=ttl)
+    else:
+        b = ArgsBucket(data='{"x": 1}', timestamp=ts, ttl=ttl)
+    await bb.store_bucket("bk", b)
+    if case["restore"]:
+        got = await bb.get_bucket("bk")
+        if got is not None:
+            await bb.store_bucket("bk", got)  # fetched and stored again: still the same deadline
+    expiry = vclock.secs(ts) + ttl.total_seconds()
+    t_probe = expiry + case["eps_us"] / 1e6
+    if case["left_us"] is None and case["ttl_us"] > 200 * US:
+        t_probe = loop.time() + abs(case["eps_us"]) / 1e6  # a far deadline: only "still there" can be observed
+    if t_probe > loop.time():
+        await asyncio.sleep(t_probe - loop.time())
+    t_probe = loop.time()
+    got = await bb.get_bucket("bk")
+    tag = f"{'result' if case['result'] else 'args'} bucket, timestamp {vclock.secs(ts):.6f}, ttl {ttl}, expiry {expiry:.6f}, read at {t_probe:.6f}"
+    # the key expiry has whole-second resolution
+    if t_probe > expiry + 1.0 and got is not None:
+        out.v("expired-bucket-served", f"{tag}: still returned {t_probe - expiry:.3f}s after timestamp + ttl")
+    if t_probe < expiry - 1.0:
+        if got is None:
+            out.v("live-bucket-gone", f"{tag}: not returned although {expiry - t_probe:.3f}s of its time-to-live were left")
+        elif got != b:
+            out.v("bucket-changed", f"{tag}: stored {b}, read {got}")
+    out.nontrivial = abs(t_probe - expiry) <= 5.0 or case["left_us"] is not None
+    out.cls("result" if case["result"] else "args", "fresh" if case["left_us"] is None else "old-timestamp",
+            "read-after-expiry" if t_probe > expiry + 1.0 else "read-before-expiry" if t_probe < expiry - 1.0 else "read-at-expiry")
+
+
+def run_store(case: dict) -> Outcome:
+    out = Outcome()
+    try:
+        vclock.run(lambda loop: _store(loop, case, out), max_steps=100_000)
+    except (vclock.StepLimit, vclock.Deadlock) as e:
+        out.inconclusive = True
+        out.info["watchdog"] = str(e)
+    return out
+
+
 CHECK = Check(
     pid="C19",
     level="exploration",
@@ -236,7 +311,9 @@ CHECK = Check(
         "base in {timestamp, deferred_until}, or next==deferred_until while ahead; non-trivial = now before the base, at it "
         "or within 1us of an exact multiple. overdue: (ttl, timestamp, tz, now) for Parameters/ArgsBucket/ResultBucket/Job; "
         "oracle is_overdue == (now > timestamp+ttl), False without ttl; non-trivial = |now-expiry|<=1us. "
-        "distinct = distinct JSON case."
+        "store-redis: buckets (fresh, or with a timestamp long before the store, fetched and stored again) written through the Redis "
+        "bucket broker on the server model and read around timestamp+ttl; oracle: gone once now > timestamp+ttl+1 s, present and "
+        "unchanged while now < timestamp+ttl-1 s (the key expiry has whole-second resolution). distinct = distinct JSON case."
     ),
     assumptions=[
         "clock: datetime.now()/time.time() inside repid.* are rebound to a pinned simulated clock (harness/vclock.py); naive datetimes are UTC (TZ=UTC)",
@@ -247,5 +324,6 @@ CHECK = Check(
         SubCheck("policy", _policy_case, run_policy, quick=1500, thorough=40000),
         SubCheck("next", _next_case, run_next, quick=1500, thorough=40000),
         SubCheck("overdue", _overdue_case, run_overdue, quick=1200, thorough=30000),
+        SubCheck("store-redis", _store_case, run_store, quick=150, thorough=4000),
     ],
 )
